@@ -70,6 +70,7 @@ type engine struct {
 	resent      int64
 	redials     int64
 	samples     []map[string]string
+	rawSamples  []map[string]string
 	where       string
 	resentWhere []string
 }
@@ -243,6 +244,9 @@ func childMain(r *vlib.Run, cfgJSON string) {
 	sc.DBConfig = dnsserver.DBConfig{Path: dbPath, Driver: cfg.Backend.Driver(), ReloadTimeout: time.Hour}
 	if cfg.Cache {
 		sc.CacheConfig = dnsserver.CacheConfig{Enabled: true, LRUSize: 1 << 16}
+		if cfg.CacheWRS {
+			sc.CacheConfig.WRSTimeout = 3600
+		}
 	}
 	if cfg.Whoami {
 		sc.WhoamiDomain = whoamiDomain
@@ -307,8 +311,8 @@ func childMain(r *vlib.Run, cfgJSON string) {
 	qs := querySet()
 	for _, l := range ls {
 		e.runListener(l, qs, ts)
-		e.runMalformed(l)
-		e.runGuard(l)
+		guardPanics := e.runGuard(l)
+		e.runMalformed(l, guardPanics)
 		r.Add("listeners", 1)
 	}
 	e.mark("shutdown")
@@ -346,6 +350,9 @@ func childMain(r *vlib.Run, cfgJSON string) {
 		r.Note("retries: %d datagrams re-sent, %d TCP re-dials (never judged) %v", e.resent, e.redials, e.resentWhere)
 	}
 	// a deterministic, varied selection of the interesting cases of this configuration
+	if n := len(e.rawSamples); n > 0 && cfg.Idx < 2 {
+		r.Sample(e.rawSamples[(cfg.Idx*5+2)%n])
+	}
 	if n := len(e.samples); n > 0 {
 		for _, k := range []int{cfg.Idx * 7, cfg.Idx*11 + 3, cfg.Idx*13 + 17} {
 			r.Sample(e.samples[k%n])
@@ -368,7 +375,8 @@ func (e *engine) send(l *listener, t transport, wire []byte, u *udpClient, tc *t
 		before := u.resent
 		resp, err := u.exchange(wire, waits)
 		if u.resent > before && len(e.resentWhere) < 5 {
-			e.resentWhere = append(e.resentWhere, fmt.Sprintf("%s (x%d)", e.where, u.resent-before))
+			e.resentWhere = append(e.resentWhere, fmt.Sprintf("%s (x%d, both replies arrived in the end: %v)", e.where, u.resent-before, u.lateDup > 0))
+			u.lateDup = 0
 		}
 		e.resent += u.resent - before
 		if err != nil {
@@ -716,11 +724,16 @@ func failureRcode(rc int) bool {
 
 // runMalformed: messages without a question (and with two) over UDP and TCP:
 // a failure reply or none, and the next query is answered.
-func (e *engine) runMalformed(l *listener) {
+func (e *engine) runMalformed(l *listener, guardPanics bool) {
 	r := e.r
 	probe := query{name: "www.example.com.", qtype: dns.TypeA}
 	for _, t := range []transport{{size: 1232}, {tcp: true}} {
 		for _, rm := range rawMessages() {
+			if guardPanics && rm.name != "two-questions" {
+				// already reported by the in-process call; over the socket it would kill the server process
+				r.Add("malformed_messages_not_sent_chain_panics", 1)
+				continue
+			}
 			u, err := dialUDP(l.udp)
 			if err != nil {
 				vlib.Infra("dial udp: %v", err)
@@ -746,7 +759,7 @@ func (e *engine) runMalformed(l *listener) {
 				m := new(dns.Msg)
 				if err := m.Unpack(resp); err != nil {
 					e.violate("malformed-garbled", qid, t.String(), l, fmt.Sprintf("reply does not unpack: %v", err), nil)
-				} else if !m.Response || !failureRcode(m.Rcode) {
+				} else if e.rawSamples = append(e.rawSamples, map[string]string{"config": e.cfg.Name, "listener": l.spec.IP, "query": qid, "transport": t.String(), "reply": firstLine(render(m))}); !m.Response || !failureRcode(m.Rcode) {
 					ok := false
 					if rm.name == "two-questions" && (!t.tcp || tc.connect() == nil) {
 						// answering the first question exactly as the bare handler does is also acceptable
@@ -794,7 +807,7 @@ func (e *engine) runMalformed(l *listener) {
 // runGuard calls the handler chain installed on each listener in-process with
 // question-less messages (what reaches it when the accept filter lets such a
 // message through): it must not panic, and what it writes must be a failure.
-func (e *engine) runGuard(l *listener) {
+func (e *engine) runGuard(l *listener) (panics bool) {
 	r := e.r
 	nets := make([]string, 0, len(l.handlers))
 	for n := range l.handlers {
@@ -826,6 +839,7 @@ func (e *engine) runGuard(l *listener) {
 			}()
 			if pan != nil {
 				e.violate("guard-panic", qid, n, l, fmt.Sprintf("the listener's handler chain panics on a message without a question: %v", pan), nil)
+				panics = true
 				continue
 			}
 			if len(w.wires) > 0 {
@@ -836,6 +850,7 @@ func (e *engine) runGuard(l *listener) {
 			}
 		}
 	}
+	return panics
 }
 
 // dumpBare prints the bare handler's answers for the closed set (debugging aid).
